@@ -12,7 +12,8 @@
    A document is what md.entities_descriptor_from_string /
    entity_descriptor_from_string + mdie.to_dict make of the XML text (the XML
    parser itself is C12's subject); time stamps are epoch seconds; the outcome
-   of the signature verification CALL (returned b / raised e) is an input.
+   of the signature verification CALL (returned b / raised e) is an input
+   (Model/MdSig.v derives it from the signature layout of the document).
    Definitions only. *)
 From PV Require Import Lib.Base.
 Open Scope N_scope.
@@ -184,8 +185,12 @@ Record source := {
   s_doc : document
 }.
 
-(* parse_and_check_signature, as used by MetadataStore.load: the RETURN VALUE
-   is ignored there, only an exception keeps the source out *)
+(* parse_and_check_signature (mdstore.py 635-658, after the repair "metadata
+   whose signature verification returns False is refused"): a verification
+   that does not succeed is fatal whichever way the backend reports it - the
+   call raises (xmlsec1 backend) or returns False (then SignatureError is
+   raised here).  MetadataStore.load / imp only notice an exception. *)
+Definition SignatureError : str := s2l "SignatureError".
 Definition parse_and_check (now : Z) (check : bool) (s : source) : result mdmap :=
   match parse now check (d_body (s_doc s)) with
   | Err e => Err e
@@ -193,8 +198,27 @@ Definition parse_and_check (now : Z) (check : bool) (s : source) : result mdmap 
       if s_cert s then
         if negb (d_signed (s_doc s)) then Ok m
         else match s_kind s with
-             | Remote => match s_verdict s with Err e => Err e | Ok _ => Ok m end
+             | Remote => match s_verdict s with
+                         | Err e => Err e
+                         | Ok true => Ok m
+                         | Ok false => Err SignatureError
+                         end
              | _ => Err (s2l "AttributeError")    (* MetaDataFile gets security=None *)
+             end
+      else Ok m
+  end.
+
+(* the same BEFORE that repair: parse_and_check_signature returned False and
+   MetadataStore.load ignored the value - only an exception kept the source out *)
+Definition parse_and_check_before_fix (now : Z) (check : bool) (s : source) : result mdmap :=
+  match parse now check (d_body (s_doc s)) with
+  | Err e => Err e
+  | Ok m =>
+      if s_cert s then
+        if negb (d_signed (s_doc s)) then Ok m
+        else match s_kind s with
+             | Remote => match s_verdict s with Err e => Err e | Ok _ => Ok m end
+             | _ => Err (s2l "AttributeError")
              end
       else Ok m
   end.
@@ -204,6 +228,12 @@ Definition load_source (now : Z) (s : source) : result mdmap :=
   | Inline => parse now true (d_body (s_doc s))     (* no cert, check_validity always on *)
   | LocalFile => parse_and_check now true s
   | Remote => if s_http_ok s then parse_and_check now (s_check s) s else Err (s2l "SourceNotFound")
+  end.
+Definition load_source_before_fix (now : Z) (s : source) : result mdmap :=
+  match s_kind s with
+  | Inline => parse now true (d_body (s_doc s))
+  | LocalFile => parse_and_check_before_fix now true s
+  | Remote => if s_http_ok s then parse_and_check_before_fix now (s_check s) s else Err (s2l "SourceNotFound")
   end.
 
 Definition store := list (str * mdmap).
